@@ -234,6 +234,9 @@ def observe(fn, Xvalid):
             warnings.simplefilter('ignore')
             r = fn()
     except ValueError as e:
+        # optimisation failures (PIRLS diverged, penalty not positive definite) are told apart from validation errors
+        if type(e).__name__ in ('OptimizationError', 'NotPositiveDefiniteError'):
+            return 'OOptErr', '%s: %s' % (type(e).__name__, str(e)[:100])
         return 'OVE', '%s: %s' % (type(e).__name__, str(e)[:100])
     except AttributeError as e:
         return 'OAE', 'AttributeError: %s' % str(e)[:100]
@@ -548,7 +551,7 @@ def record(res, cases, meta, excs, e, d, value, tag, fitted, skip, obs, text, ex
         # *numeric* data): counted only, and only here -- fit_quantile on an unfitted model validates a copy of y inside
         # self.fit(..) and then compares predict(X) > y with the strings as passed.  Every other entry point must accept them.
         res.count('valid-numeric-strings:%s.fit_quantile(unfitted):OTypeError' % e['cls'])
-    elif kind is None and state_ok and e['fitting'] and obs not in ('OVE', 'ORetFinite'):
+    elif kind is None and state_ok and e['fitting'] and obs not in ('OVE', 'OOptErr', 'ORetFinite'):
         # last sentence of the property, for the entry points that fit
         fid = None
         if d['cont'] in ('CList', 'CTuple'):
@@ -599,7 +602,7 @@ def nasty_fits(res, rng):
             obs, text = observe(lambda: gam.fit(X_, y, **kw), X_)
             res.case(('nasty', cls, tag), nontrivial=True)
             res.count('nasty-fit:%s' % obs)
-            if obs not in ('OVE', 'ORetFinite'):
+            if obs not in ('OVE', 'OOptErr', 'ORetFinite'):
                 res.violations.append(dict(
                     what='%s.fit on valid data (%s) neither raised ValueError nor returned a finite model' % (cls, tag),
                     input=dict(cls=cls, scenario=tag, seed=res.seed, X=np.asarray(X_).tolist(), y=y.tolist(),
@@ -742,7 +745,7 @@ def run_generic(res, rep, dname, lv, lname, tag, X, y, terms):
     raw_linalg = obs == 'OVE' and text.startswith('LinAlgError')
     if raw_linalg:
         res.count('generic-fit:raw LinAlgError')
-    if obs not in ('OVE', 'ORetFinite') or raw_linalg:
+    if obs not in ('OVE', 'OOptErr', 'ORetFinite') or raw_linalg:
         res.violations.append(dict(
             what='GAM(distribution=%s%s, link=%s).fit on valid data (%s) neither raised ValueError nor returned a finite model'
                  % (dname, '' if lv is None else '(levels=%d)' % lv, lname, tag),
@@ -765,7 +768,7 @@ def regression_probes(res, rng):
         obs, text = observe(lambda: GAM(s(0, n_splines=5), distribution=dname, link='logit').fit(X, yy), X)
         res.case(('regression-S20', dname), nontrivial=True)
         res.count('regression-S20:%s' % obs)
-        if obs not in ('OVE', 'ORetFinite'):
+        if obs not in ('OVE', 'OOptErr', 'ORetFinite'):
             res.violations.append(dict(
                 what='regression of C11-S20: GAM(distribution=%s, link=logit).fit on valid targets in [0, 1]' % dname,
                 input=dict(cls='GAM', distribution=dname, link='logit', seed=res.seed, X=X.tolist(), y=yy.tolist()),
@@ -799,7 +802,7 @@ def regression_probes(res, rng):
         obs, text = observe(lambda yb=yb: PoissonGAM(s(0, n_splines=5)).fit(X, yb), X)
         res.case(('regression-S24', 'fit', tag), nontrivial=True)
         res.count('regression-S24:%s' % obs)
-        if obs not in ('OVE', 'ORetFinite'):
+        if obs not in ('OVE', 'OOptErr', 'ORetFinite'):
             res.violations.append(dict(
                 what='regression of C11-S24: PoissonGAM.fit with y=<%s>' % tag,
                 input=dict(cls='PoissonGAM', method='fit', y=[str(v) for v in list(yb)], seed=res.seed, X=X.tolist()),
